@@ -63,6 +63,26 @@ def run(c):
             for v in (0, 0xFF, (inp[i] + 1) % 256, (inp[i] - 1) % 256):
                 if v != inp[i]:
                     add("plain", inp[:i] + [v] + inp[i + 1:])
+    # every value of every length octet: one accepted representative per (message, slot); the rest of the input unchanged
+    rep = {}
+    for g in sorted((g for g in gen if g["ok"] and not g["unk"] and TBL[g["m"]]["family"] != "ENV"), key=lambda g: -len(g["inp"])):
+        for pos, lsz, sname in length_positions(g["m"], g["inp"]):
+            rep.setdefault((g["m"], sname, lsz), (g["inp"], pos))
+    for (mname, sname, lsz), (inp, pos) in rep.items():
+        for k in range(lsz):
+            for v in range(256):
+                if v != inp[pos + k]:
+                    add("plain", inp[:pos + k] + [v] + inp[pos + k + 1:])
+    c.cov["length_octets_swept"] = sum(l for (_, _, l) in rep)
+    # long runs of unknown identifiers after a valid mandatory part (must stay linear), per message
+    for t in TABLES:
+        if t["family"] == "ENV": continue
+        mv = minimal_value(t["name"])
+        base = [x for s_, ts in zip(mv["mand"], [q for q in t["slots"] if q["mand"]]) for x in (([s_["len"]] if ts["lsz"] == 1 else [s_["len"] >> 8, s_["len"] & 255] if ts["lsz"] == 2 else []) + s_["v"][:(s_["len"] if ts["lsz"] else len(s_["v"]))])]
+        u = unknown_octet(t["name"])
+        add("plain", base + [u] * 3000)
+        if thorough or rng.random() < 0.1:
+            add("plain", base + [u] * 66000)
     smp = samples()
     for name, b in smp:
         add("plain", b)
